@@ -537,6 +537,10 @@ func sameValue(value1 *ast.Value, value2 *ast.Value) bool {
 }
 
 func doTypesConflict(walker *Walker, type1 *ast.Type, type2 *ast.Type) bool {
+	if type1.NonNull != type2.NonNull {
+		// also for list types: [T]! and [T] have different response shapes
+		return true
+	}
 	if type1.Elem != nil {
 		if type2.Elem != nil {
 			return doTypesConflict(walker, type1.Elem, type2.Elem)
@@ -555,7 +559,8 @@ func doTypesConflict(walker *Walker, type1 *ast.Type, type2 *ast.Type) bool {
 
 	t1 := walker.Schema.Types[type1.NamedType]
 	t2 := walker.Schema.Types[type2.NamedType]
-	if (t1.Kind == ast.Scalar || t1.Kind == ast.Enum) && (t2.Kind == ast.Scalar || t2.Kind == ast.Enum) {
+	if t1.Kind == ast.Scalar || t1.Kind == ast.Enum || t2.Kind == ast.Scalar || t2.Kind == ast.Enum {
+		// a leaf type only has the shape of itself, never that of a composite type
 		return t1.Name != t2.Name
 	}
 
